@@ -171,6 +171,15 @@ def run(tier, seed, replay=None):
                                               "blank_lines_lower_bound": lo, "hard_tabs": ht},
                                      "want": ["lines"],
                                      "_meta": {"name": name, "how": "lf", "gen": True}})
+        # leading / trailing / interior blank lines under every explicit newline style
+        for (name, text) in blank_sources():
+            for style in ("Windows", "Unix"):
+                for up in (1, 3):
+                    for how in ("lf", "crlf"):
+                        jobs.append({"id": len(jobs), "src": retag(text, how),
+                                     "opts": {"newline_style": style, "blank_lines_upper_bound": up},
+                                     "want": ["lines"],
+                                     "_meta": {"name": name, "how": how, "gen": True}})
         results = ucore.run_jobs([{k: j[k] for k in j if k != "_meta"} for j in jobs], sc)
         wrecs, wmeta = [], []
         skipped = 0
